@@ -52,6 +52,9 @@ type line struct {
 	Stat map[string]int `json:"stat,omitempty"`
 }
 
+// Flush writes out everything emitted so far (before an early exit).
+func Flush() { out.Flush() }
+
 func Emit(fn string, args []string, o string) {
 	b, _ := json.Marshal(line{K: "case", Fn: fn, Args: args, Out: o})
 	out.Write(b)
